@@ -276,6 +276,33 @@ pub fn build_scope(tier: Tier) -> (Scope, Vec<String>) {
         }
     }
     notes.push(format!("L: {} cases", lcount));
+    // ---- K: length boundaries (text, blob, vectors, method names, long big numbers) at their own type, at
+    //         reserved (skipped), under an added opt, and at a mismatching type under opt (skipped after a probe)
+    let mut kcount = 0;
+    for (wenv, wt, v) in length_boundary_cases() {
+        let Some(b) = enc(&wenv, &[wt.clone()], &[v]) else { continue };
+        for e in [wt.clone(), Ty::Prim(P::Reserved), Ty::opt(wt.clone()), Ty::opt(Ty::Prim(P::Bool))] {
+            cases.push(Case { bytes: b.clone(), eenv: wenv.clone(), etys: vec![e], family: "K:length-boundaries", untyped: true, names: vec![] });
+            kcount += 1;
+        }
+    }
+    notes.push(format!("K: {} cases", kcount));
+    // ---- M: wire and expected type are one-step neighbours, and the component that decides the coercion rule
+    //         (optional? same primitive?) sits behind a definition or a chain of two on one or both sides
+    let mut mcount = 0;
+    for (env, s, t) in alias_neighbour_pairs("") {
+        let vals = gen::values(&env, &s, &dom, 3);
+        let n = vals.len();
+        for (k, v) in vals.into_iter().enumerate() {
+            if !(k == 0 || k + 1 == n || k == n / 2) {
+                continue;
+            }
+            let Some(b) = enc(&env, &[s.clone()], &[v]) else { continue };
+            cases.push(Case { bytes: b, eenv: env.clone(), etys: vec![t.clone()], family: "M:alias-neighbours", untyped: false, names: vec![] });
+            mcount += 1;
+        }
+    }
+    notes.push(format!("M: {} cases", mcount));
     // ---- T: an expected environment whose definitions are called like the decoder's own
     //         names for wire table entries
     let mut tcount = 0;
@@ -366,7 +393,7 @@ pub fn run(tier: Tier, replay: Option<&str>) -> i32 {
     let mut seen = std::collections::HashSet::new();
     let mut gsrc: Vec<&Case> = vec![];
     for c in &scope.cases {
-        if c.family.starts_with("A") || c.family.starts_with("H") {
+        if c.family.starts_with("A") || c.family.starts_with("H") || c.family.starts_with("K") || c.family.starts_with("M") {
             continue;
         }
         if seen.insert((c.bytes.clone(), c.etys.clone())) {
@@ -402,7 +429,7 @@ pub fn run(tier: Tier, replay: Option<&str>) -> i32 {
     finish(
         &ctx,
         rep,
-        "cases = (message bytes, expected type sequence); families A (all depth<=1 wire x expected types x tiny values), B (depth-2 wire types x all 1- (thorough: 2-) step type neighbours), C (recursive environments x every single-definition mutant), D (argument sequences of length 0..3 both sides), E (function/service references incl. opt-probe then plain use), F (permuted / padded / duplicated type tables), H (all type tables of <=2 entries over a hostile entry alphabet), G (every 1-byte (thorough: 2-byte) deviation of B..F messages). Non-trivial = specification defines a coerced value.",
+        "cases = (message bytes, expected type sequence); families A (all depth<=1 wire x expected types x tiny values), B (depth-2 wire types x all 1- (thorough: 2-) step type neighbours), C (recursive environments x every single-definition mutant), D (argument sequences of length 0..3 both sides), E (function/service references incl. opt-probe then plain use), F (permuted / padded / duplicated type tables), H (all type tables of <=2 entries over a hostile entry alphabet), M (one-step neighbour pairs whose deciding component is behind an alias or alias chain), K (text / blob / vector / method-name lengths at 127..65536 and long big numbers, read at their type, skipped, and below opt), G (every 1-byte (thorough: 2-byte) deviation of B..F messages). Non-trivial = specification defines a coerced value.",
         &["reference models R2 (binary grammar), R3 (subtyping gfp), R4 (coercion) are correct readings of spec/Candid.md", "documented limits (10000 table entries, 29-byte principals) are parameters of the model"],
         json!({}),
     )
